@@ -203,10 +203,21 @@ func (r *Recorder) Note(s string)         { r.mu.Lock(); r.res.Notes = append(r.
 func (r *Recorder) SetExhaustive(b bool)  { r.mu.Lock(); r.res.Exhaustive = b; r.mu.Unlock() }
 func (r *Recorder) Inconclusive(s string) { r.mu.Lock(); r.res.Inconclusive = s; r.mu.Unlock() }
 
+// Checkpoint writes the result file now (used before an operation that may kill the process).
+func (r *Recorder) Checkpoint() {
+	r.mu.Lock()
+	defer r.mu.Unlock()
+	r.write(false)
+}
+
 // Finish writes the result file named by VERIF_OUT (or stdout).
 func (r *Recorder) Finish() {
 	r.mu.Lock()
 	defer r.mu.Unlock()
+	r.write(true)
+}
+
+func (r *Recorder) write(final bool) {
 	r.res.Distinct = int64(len(r.distinct))
 	keys := make([]string, 0, len(r.viol))
 	for k := range r.viol {
@@ -233,11 +244,11 @@ func (r *Recorder) Finish() {
 		if err := os.WriteFile(p+".tmp", b, 0o644); err == nil {
 			os.Rename(p+".tmp", p)
 		}
-	} else {
+	} else if final {
 		os.Stdout.Write(b)
 		fmt.Println()
 	}
-	if r.wal != nil {
+	if final && r.wal != nil {
 		r.wal.Close()
 	}
 }
